@@ -92,7 +92,7 @@ VARIABLES phase,       \* "start" -> "created" -> ("assigned") -> "parsed"   | "
           cfg          \* codec: the partial assignment under test
 vars == <<phase, scn, attr, used, cfg>>
 
-NoScn == [target |-> "plss", s |-> "clean_qq", v |-> Unset, ch |-> "none", ch2 |-> "none", v2 |-> Unset]
+NoScn == [target |-> "plss", s |-> "clean_qq", v |-> Unset, ch |-> "none", ch2 |-> "none", v2 |-> Unset, again |-> FALSE]
 Init == phase = "start" /\ scn = NoScn /\ attr = Unset /\ used = Unset /\ cfg = Empty
 
 \* codec branch: choose up to MaxSet settings and values
@@ -107,10 +107,11 @@ ChooseCodec == /\ phase = "start"
 ChooseScenario ==
   /\ phase = "start"
   /\ \E t \in Targets : \E s \in Settings : \E ch \in ChannelsFor(t, s) : \E v \in ValuesOf(s) :
-       \/ scn' = [target |-> t, s |-> s, v |-> v, ch |-> ch, ch2 |-> "none", v2 |-> Unset]
+       \E ag \in (IF ch = "parse_kw" THEN BOOLEAN ELSE {FALSE}) :     \* again: a second, keyword-less parse follows
+       \/ scn' = [target |-> t, s |-> s, v |-> v, ch |-> ch, ch2 |-> "none", v2 |-> Unset, again |-> ag]
        \/ \E ch2 \in ChannelsFor(t, s) : \E v2 \in ValuesOf(s) \ {v} :
             /\ Strength(ch2) < Strength(ch)
-            /\ scn' = [target |-> t, s |-> s, v |-> v, ch |-> ch, ch2 |-> ch2, v2 |-> v2]
+            /\ scn' = [target |-> t, s |-> s, v |-> v, ch |-> ch, ch2 |-> ch2, v2 |-> v2, again |-> ag]
   /\ phase' = "chosen" /\ UNCHANGED <<attr, used, cfg>>
 ValIn(ch) == IF scn.ch = ch THEN scn.v ELSE IF scn.ch2 = ch THEN scn.v2 ELSE Unset
 \* __init__: config string applied first, then the init keyword
@@ -127,14 +128,21 @@ Parse == /\ phase = "assigned"
                      ELSE IF attr # Unset THEN attr
                      ELSE IF ValIn("mc") # Unset THEN ValIn("mc") ELSE Unset)
          /\ phase' = "parsed" /\ UNCHANGED <<scn, attr, cfg>>
-Next == ChooseCodec \/ ChooseScenario \/ Create \/ Assign \/ Parse
+\* a keyword of one parse() call does not outlive that call
+ParseAgain == /\ phase = "parsed" /\ scn.again
+              /\ used' = (IF Fault = "kw_sticks" THEN used ELSE IF attr # Unset THEN attr ELSE ValIn("mc"))
+              /\ phase' = "parsed2" /\ UNCHANGED <<scn, attr, cfg>>
+Next == ChooseCodec \/ ChooseScenario \/ Create \/ Assign \/ Parse \/ ParseAgain
 Spec == Init /\ [][Next]_vars
 
 RoundTrip == phase = "codec" => Decode(Encode(cfg)) = cfg /\ \A k \in 1..Len(Encode(cfg)) : Known(Encode(cfg)[k])
 StrongestWins == phase = "parsed" => used = scn.v
+KeywordDoesNotStick == phase = "parsed2" => used = (IF scn.ch2 = "none" THEN Unset ELSE scn.v2)
+Final == (phase = "parsed" /\ ~scn.again) \/ phase = "parsed2"
 \* the reference scenario: the governing value given through the config string at creation
-Reference == [scn EXCEPT !.ch = "init_config", !.ch2 = "none", !.v2 = Unset, !.v = used]
+Reference == IF used = Unset THEN [scn EXCEPT !.ch = "none", !.ch2 = "none", !.v2 = Unset, !.v = Unset, !.again = FALSE]
+             ELSE [scn EXCEPT !.ch = "init_config", !.ch2 = "none", !.v2 = Unset, !.v = used, !.again = FALSE]
 
 EmitCodec == (EmitCases /\ phase = "codec") => PrintT(<<"CASE", ToJson([kind |-> "codec", cfg |-> cfg, tokens |-> Encode(cfg)])>>)
-EmitScn == (EmitCases /\ phase = "parsed") => PrintT(<<"CASE", ToJson([kind |-> "scenario", scn |-> scn, used |-> used, ref |-> Reference])>>)
+EmitScn == (EmitCases /\ Final) => PrintT(<<"CASE", ToJson([kind |-> "scenario", scn |-> scn, used |-> used, ref |-> Reference])>>)
 =============================================================================
